@@ -13,6 +13,7 @@ import (
 	"strconv"
 	"strings"
 	"sync"
+	"sync/atomic"
 	"time"
 
 	"simrt"
@@ -277,6 +278,19 @@ func cmdWork(args []string) {
 		enc.Encode(workerLine{Det: det, Done: true})
 		return
 	}
+	// watchdog: a simulated run that makes no progress for 90 s of wall clock means a task blocked on
+	// something the simulator does not own; that is harness trouble (exit 2), never a verdict
+	var lastBeat atomic.Int64
+	lastBeat.Store(time.Now().Unix())
+	go func() {
+		for {
+			time.Sleep(5 * time.Second)
+			if time.Now().Unix()-lastBeat.Load() > 90 {
+				fmt.Fprintln(os.Stderr, "WATCHDOG: a simulated run made no progress for 90 s (a task blocked on a primitive the simulator does not own?)")
+				os.Exit(2)
+			}
+		}
+	}()
 	fps := map[uint64]struct{}{}
 	inters := map[uint64]struct{}{}
 	var stats [simrt.NStat]int64
@@ -306,6 +320,7 @@ func cmdWork(args []string) {
 		sc := p.Gen(rs, ex)
 		before := raceLogSize()
 		o := p.Run(sc)
+		lastBeat.Store(time.Now().Unix())
 		runs++
 		for j := range stats {
 			stats[j] += o.Stats[j]
